@@ -126,6 +126,31 @@ def set_operators_are_modelled(b):
   })
 
 
+def take_first(box, ks):
+  # any() stops at the first element that is true: later elements are not evaluated
+  r = any(box.take(k) for k in ks)
+  r2 = all(box.take(k) for k in ks)
+  return (r, r2, box.taken)
+
+
+class Taker(object):
+  def take(self, k):
+    self.taken.append(k)
+    return k > 0
+
+
+@unit(P, target="contracts.self_engine:take_first")
+def any_and_all_stop_at_the_deciding_element(b):
+  """2026-09-25: generator expressions were evaluated eagerly, so any(f(x) for x in xs) ran f on every x"""
+  k0 = b.int("k0", -3, 3)
+  box = b.raw_new(Taker, taken=b.list([]))
+  return Case(take_first, [box, [k0, 5, 7]], raises={}, ensures={
+    "ok_both_stop_at_the_deciding_element": lambda res: res[2] == ([k0, k0, 5, 7] if k0 > 0 else [k0, 5, k0]) and res[0] is True,
+    "bad_any_evaluates_everything": lambda res: len(res[2]) >= 3 + 1,
+    "ok_all_answers": lambda res: res[1] is (k0 > 0),
+  })
+
+
 class Cb(object):
   def m(self):
     return 1
